@@ -4,6 +4,7 @@ package echo
 // admitted x fallback x handler matrix and prints one C19CASE line per case.
 
 import (
+	"strings"
 	"errors"
 	"net/http"
 	"net/http/httptest"
@@ -110,6 +111,10 @@ type c19Case struct {
 	FallbackAvailable bool `json:"fallback_available"`
 	// order of slot callbacks and handler / fallback calls for the resource, e.g. "passed,handler,completed"
 	Seq string `json:"seq"`
+	// HTTP drivers: the response body, and (when BodyChecked) the body the configured fallback writes
+	Body         string `json:"body"`
+	FallbackBody string `json:"fallback_body"`
+	BodyChecked  bool   `json:"body_checked"`
 	// request made earlier on the same resource ("" = none): thorough tier, two-request histories
 	History string `json:"history"`
 	Notes                 string `json:"notes,omitempty"`
@@ -378,6 +383,7 @@ func c19EchoCase(t *testing.T, admitted, fallback bool, handler string) {
 	r := httptest.NewRequest(http.MethodGet, "/c19", nil)
 	c.EscapedPanic = c19Guard(func() { e.ServeHTTP(w, r) })
 	c.Response = strconv.Itoa(w.Code)
+	c.Body, c.FallbackBody, c.BodyChecked = strings.TrimSpace(w.Body.String()), "c19 fallback", true
 	c.DefaultRejectionSeen = w.Code == http.StatusTooManyRequests
 	c19Finish(t, c)
 }
